@@ -44,7 +44,7 @@ TraceStart ==
   /\ flags' = [diff |-> B(Ev.flags.diff), print |-> B(Ev.flags.print), skipImports |-> B(Ev.flags.skipImports),
                skipGenerated |-> B(Ev.flags.skipGenerated), verbose |-> B(Ev.flags.verbose)]
   /\ fault' = [f |-> Ev.fault.f, p |-> Ev.fault.p]
-  /\ cur' = 1 /\ stage' = "discover"
+  /\ cur' = 1 /\ stage' = "load"
   /\ disk' = [i \in 1..Len(Ev.kinds) |-> "orig"]
   /\ stdout' = <<>> /\ stderr' = <<>> /\ errs' = <<>> /\ rerrs' = <<>> /\ touched' = {} /\ nwrites' = 0 /\ exit' = -1
   /\ UNCHANGED <<verdicts>>
@@ -71,7 +71,8 @@ TraceDone     == IsEvent("done") /\ Finish /\ Ev.n = Len(errs) + Len(rerrs)
 Silent ==
   /\ l <= Len(Trace) /\ phase = "run"
   /\ IF hooks
-     THEN \/ Discover
+     THEN \/ LoadPatches
+          \/ Discover
           \/ (FormatImports /\ flags.skipImports)
           \/ (WriteTemp /\ stage' = "rename")
           \/ (WriteRename /\ stage' = "killed")
